@@ -73,6 +73,11 @@ def _case(draw, tier):
     b = draw(_base())
     salt = draw(st.sampled_from(["x", ".1", "0", "\u00e9", "Z"]))
     rels = [draw(st.sampled_from(RELATIONS)), draw(st.sampled_from(RELATIONS))]
+    # a normalisation relation needs a base that the normal form changes
+    if "nfd" in rels and unicodedata.normalize("NFD", b) == b:
+        b = b + "\u00e9\u1e69"          # precomposed: e-acute, s with dot below and dot above
+    if "nfc" in rels and unicodedata.normalize("NFC", b) == b:
+        b = b + "e\u0301s\u0323\u0307"  # decomposed
     ids = [b, relate(b, rels[0], salt)]
     third = relate(draw(st.sampled_from(ids)), rels[1], salt + "2")
     while third in ids:
@@ -105,7 +110,7 @@ def _case(draw, tier):
     return {"cfg": cfg, "ids": ids, "fmts": fmts, "rels": rels,
             "contents": [{"hex": "7368617265642d6f626a656374"}, {"hex": "6f74686572"}],
             "docs": [{"hex": "6d30"}, {"hex": "6d31"}, {"hex": ""}],
-            "ops": draw(st.lists(op, min_size=2, max_size=16))}
+            "ops": draw(ops.history(op, 2, 16))}
 
 
 def strategy(tier):
